@@ -1,3 +1,4 @@
+import subprocess
 from typing import Optional
 from conductor.utils.output_handler import OutputHandler
 
@@ -16,6 +17,10 @@ class OperationExecutionHandle:
         self.stderr: Optional[OutputHandler] = None
         self.returncode: Optional[int] = None
         self.slot: Optional[int] = None
+        # Holding on to the `Popen` object keeps its finalizer (and
+        # `subprocess._cleanup()`) from reaping the child behind our back; the
+        # SIGCHLD handler must be the only one that collects the exit status.
+        self.process: "Optional[subprocess.Popen]" = None
 
     @classmethod
     def from_async_process(cls, pid: int):
